@@ -107,13 +107,13 @@ Proof.
   destruct (bind_kws V D K1 kname1 (c_kw V c)
               (skipn (List.length posonly) filled ++ map (fun k => (k, None)) kwonly) []
               match kwa with Some _ => true | None => false end) as [[named kwd]|] eqn:Ekw; [|reflexivity].
-  cbn [option_map fst snd].
+  cbn [option_map fst snd]. unfold slot in *.
   assert (Hkeys : map fst named = pos ++ kwonly).
   { rewrite (bind_kws_keys K1 kname1 _ _ _ _ _ _ Ekw), map_app, map_map. cbn [fst]. rewrite map_id.
-    rewrite <- skipn_map. unfold filled. rewrite fill_pos_keys.
+    rewrite <- skipn_map. unfold filled, slot. rewrite fill_pos_keys.
     rewrite skipn_app, Nat.sub_diag, skipn_all. reflexivity. }
   assert (Hfilled : map fst (firstn (List.length posonly) filled) = posonly).
-  { rewrite <- firstn_map. unfold filled. rewrite fill_pos_keys, firstn_app, Nat.sub_diag, firstn_all.
+  { rewrite <- firstn_map. unfold filled, slot. rewrite fill_pos_keys, firstn_app, Nat.sub_diag, firstn_all.
     cbn [firstn]. apply app_nil_r. }
   rewrite firstn_map, skipn_map, <- map_app.
   rewrite (finish_map dp1 dp2); [rewrite (finish_map dk1 dk2); [reflexivity|]|].
@@ -246,9 +246,9 @@ Theorem compiled_arguments_wellformed (r : rawll D) (a : arguments D) :
   compile_ll D r = inr a -> forall c : call V, py_bind V D a c <> BadAST.
 Proof.
   intros H c. rewrite (ll_encoding_correct r a H c). unfold hy_bind_ref, bind_with.
-  destruct (bind_kws _ _ _ _ _ _ _ _) as [[named kwd]|]; [|discriminate].
-  destruct (skipn _ _); destruct (match r_rest D r with RVar n => Some n | _ => None end);
-    destruct (finish _ _ _ _ _ _ _); destruct (finish _ _ _ _ _ _ _); discriminate.
+  repeat match goal with
+         | |- context [match ?x with _ => _ end] => destruct x
+         end; discriminate.
 Qed.
 End Encoding.
 
@@ -482,7 +482,10 @@ Theorem implicit_return async_gen body f :
   | [] => [SPass]
   | s => s
   end.
-Proof. unfold function_body. rewrite compile_branch_snoc. cbn [r_stmts r_expr]. rewrite <- app_assoc. reflexivity. Qed.
+Proof.
+  unfold function_body. rewrite compile_branch_snoc. cbn [r_stmts r_expr]. rewrite <- app_assoc.
+  match goal with |- match ?x with _ => _ end = _ => destruct x end; reflexivity.
+Qed.
 
 Theorem empty_body async_gen : function_body async_gen [] = [SPass].
 Proof. reflexivity. Qed.
